@@ -261,6 +261,8 @@ type condEdge struct {
 	Cond ssa.Value
 	Val  bool
 	If   *ssa.If
+	// Composite: this entry was decomposed; its parts follow it in the list
+	Composite bool
 }
 
 // dominatingConds returns the branch conditions known to hold at the entry of
@@ -268,7 +270,59 @@ type condEdge struct {
 // dominator-tree child on the way to b is a successor of D with D as its only
 // predecessor, c (or !c) holds.
 func dominatingConds(b *ssa.BasicBlock) []condEdge {
+	return dominatingCondsD(b, 0)
+}
+
+// atomise: a condition known to hold that is a negation or a materialised short-circuit (`x := a && b; if x`) also
+// establishes its parts: for a boolean phi, the edges whose constant contradicts the known outcome are excluded; if
+// one edge remains, its value has the known outcome and control passed through that edge's predecessor.
+func atomise(ce condEdge, d int) []condEdge {
+	out := []condEdge{ce}
+	if d > 4 {
+		return out
+	}
+	switch x := ce.Cond.(type) {
+	case *ssa.UnOp:
+		if x.Op == token.NOT {
+			out[0].Composite = true
+			out = append(out, atomise(condEdge{Cond: x.X, Val: !ce.Val, If: ce.If}, d+1)...)
+		}
+	case *ssa.Phi:
+		var rest []int
+		for i, e := range x.Edges {
+			if k, ok := e.(*ssa.Const); ok {
+				if bv, isB := constBool(k); isB && bv != ce.Val {
+					continue
+				}
+			}
+			rest = append(rest, i)
+		}
+		if len(rest) == 1 {
+			i := rest[0]
+			out[0].Composite = true
+			if _, isConst := x.Edges[i].(*ssa.Const); !isConst {
+				out = append(out, atomise(condEdge{Cond: x.Edges[i], Val: ce.Val, If: ce.If}, d+1)...)
+			}
+			pred := x.Block().Preds[i]
+			out = append(out, dominatingCondsD(pred, d+1)...)
+			// the branch taken out of pred itself, when pred ends in an If
+			if iff, ok := pred.Instrs[len(pred.Instrs)-1].(*ssa.If); ok && pred.Succs[0] != pred.Succs[1] {
+				if pred.Succs[0] == x.Block() {
+					out = append(out, atomise(condEdge{Cond: iff.Cond, Val: true, If: iff}, d+1)...)
+				} else if pred.Succs[1] == x.Block() {
+					out = append(out, atomise(condEdge{Cond: iff.Cond, Val: false, If: iff}, d+1)...)
+				}
+			}
+		}
+	}
+	return out
+}
+
+func dominatingCondsD(b *ssa.BasicBlock, depth int) []condEdge {
 	var out []condEdge
+	if depth > 4 {
+		return nil
+	}
 	for cur := b; cur != nil; cur = cur.Idom() {
 		d := cur.Idom()
 		if d == nil {
@@ -291,9 +345,9 @@ func dominatingConds(b *ssa.BasicBlock) []condEdge {
 			continue
 		}
 		if d.Succs[0] == cur && d.Succs[1] != cur {
-			out = append(out, condEdge{iff.Cond, true, iff})
+			out = append(out, atomise(condEdge{Cond: iff.Cond, Val: true, If: iff}, depth)...)
 		} else if d.Succs[1] == cur && d.Succs[0] != cur {
-			out = append(out, condEdge{iff.Cond, false, iff})
+			out = append(out, atomise(condEdge{Cond: iff.Cond, Val: false, If: iff}, depth)...)
 		}
 	}
 	return out
@@ -670,4 +724,14 @@ func eachInstr(fns []*ssa.Function, f func(fn *ssa.Function, in ssa.Instruction)
 			}
 		}
 	}
+}
+
+// paramIndex: the position of a parameter in its function's parameter list (-1 if not found).
+func paramIndex(x *ssa.Parameter) int {
+	for i, q := range x.Parent().Params {
+		if q == x {
+			return i
+		}
+	}
+	return -1
 }
